@@ -51,6 +51,7 @@ func instTyped(q *Quant, ts []Term) Term {
 type Rec struct {
 	Quants []*Quant
 	Idx    []Term // ground index terms
+	Facts  []Term // type invariants of values the clause mentions (hypotheses of this obligation only)
 	cur    *Quant
 }
 
@@ -620,6 +621,11 @@ func (e *Env) evalCall(n ECall) Val {
 		v := e.eval(n.Args[0])
 		switch v.Sort {
 		case SSlice:
+			if e.inQuant == 0 && e.rec != nil {
+				// the shape invariant of every slice value (the fact a load in the code gets): a goal that mentions
+				// len(x.f) must not depend on the code having loaded x.f before. Local to the obligation being built.
+				e.rec.Facts = append(e.rec.Facts, "(>= (slen "+v.T+") 0)")
+			}
 			return specVal("(slen "+v.T+")", SInt)
 		case SStr:
 			return specVal(u.strLen(v.T, e.inQuant == 0), SInt)
